@@ -38,10 +38,12 @@ theorem index_in_range (n0 size minSamples minRemove nlive : Int) (maxSamples : 
   | none => unfold clampIndex; simp [truthyOpt]; grind
   | some m => unfold clampIndex; simp [truthyOpt, optGet] at *; grind
 
-example : CapGuard 10 (some 25) true ∧ (1 : Int) ≤ 5 ∧ (3 : Int) < 20 ∧
-    clampIndex 2 20 5 3 10 (some 25) true = Clamp.index 5 := by
-  refine ⟨?_, by decide, by decide, by decide⟩
-  intro _ m hm _; cases hm; decide
+/-- the theorem applied: 20 live samples, `min_samples = 5`, `min_remove = 3`, cap 25 with `nlive = 10` -/
+example : ∃ n, clampIndex 2 20 5 3 10 (some 25) true = Clamp.index n ∧ 0 ≤ n ∧ n < 20 :=
+  index_in_range 2 20 5 3 10 (some 25) true (by decide) (by decide) (by decide)
+    (by intro _ m hm _; cases hm; decide)
+
+example : clampIndex 2 20 5 3 10 (some 25) true = Clamp.index 5 := by decide
 
 /-- without `min_remove < size` the index runs past the array: 3 live samples, `min_remove = 3`
 (allowed by `check_configuration` when `nlive = 3`) gives index 3 → `IndexError` in the real code. -/
@@ -73,6 +75,13 @@ theorem threshold_is_live_sample {α : Type} (logL : List α) (n0 minSamples min
   rw [hn]
   exact finish_index logL n h0 h1
 
+example : ∃ (p : Nat) (hp : p < ([10, 20, 30, 40] : List Int).length),
+    finish ([10, 20, 30, 40] : List Int) (clampIndex 0 ([10, 20, 30, 40] : List Int).length 1 2 10 none true)
+      = Outcome.threshold p ([10, 20, 30, 40] : List Int)[p] ∧
+      ([10, 20, 30, 40] : List Int)[p] ∈ ([10, 20, 30, 40] : List Int) :=
+  threshold_is_live_sample ([10, 20, 30, 40] : List Int) 0 1 2 10 none true (by decide) (by decide) (by decide)
+    (by intro _ m hm; cases hm)
+
 example : finish [10, 20, 30, 40] (clampIndex 0 4 1 2 10 none true)
     = (Outcome.threshold 2 30 : Outcome Int) := by decide
 
@@ -90,6 +99,9 @@ theorem keeps_min_samples (n0 size minSamples minRemove nlive : Int) (maxSamples
   | none => unfold clampIndex; simp [truthyOpt]; grind
   | some m => unfold clampIndex; simp [truthyOpt, optGet] at *; grind
 
+example : clampIndex 18 20 5 1 10 none true = Clamp.index (20 - 5) :=
+  keeps_min_samples 18 20 5 1 10 none true (by decide) (by decide) (by intro _ m hm; cases hm) (by decide)
+
 example : (20 : Int) - firstCut 18 < 5 ∧ clampIndex 18 20 5 1 10 none true = Clamp.index 15 := by decide
 
 /-- with fewer live samples than `min_samples` nothing is removed and fewer than `min_samples` remain -/
@@ -103,7 +115,11 @@ theorem keeps_min_samples_fails_without_cap_room :
     (20 : Int) - firstCut 15 < 8 ∧ clampIndex 15 20 8 1 10 (some 12) true = Clamp.index 18 := by decide
 
 /-- **Otherwise at least `min_remove` positions are removed**: the index is `≥ min_remove`
-(no other hypothesis: any cap only increases the index). -/
+(no other hypothesis: any cap only increases the index).  In this branch `min_samples` is NOT
+re-checked after the index has been raised to `min_remove`: see `min_remove_overrides_min_samples`.
+That is what the property states ("…, otherwise at least min_remove are removed"), so it is not a
+violation of the property, but `min_samples` is not a floor on the next level when
+`min_remove > size - min_samples`. -/
 theorem removes_min_remove (n0 size minSamples minRemove nlive : Int) (maxSamples : Option Int)
     (drawConstant : Bool) (hr : 1 ≤ minRemove) (hfew : ¬ size - firstCut n0 < minSamples) :
     ∃ n, clampIndex n0 size minSamples minRemove nlive maxSamples drawConstant = Clamp.index n
@@ -114,23 +130,45 @@ theorem removes_min_remove (n0 size minSamples minRemove nlive : Int) (maxSample
   by_cases h0 : n0 = 0 <;> cases maxSamples <;>
     simp [h0, hr', truthyOpt, optGet] at hfew ⊢ <;> grind
 
+example : ∃ n, clampIndex 2 20 5 4 10 none true = Clamp.index n ∧ 4 ≤ n :=
+  removes_min_remove 2 20 5 4 10 none true (by decide) (by decide)
+
 example : ¬ ((20 : Int) - firstCut 2 < 5) ∧ clampIndex 2 20 5 4 10 none true = Clamp.index 4 := by decide
+
+/-- `min_remove` overrides `min_samples`: 10 live samples, `min_samples = 8`, `min_remove = 5`, the
+method chooses 1 (which would leave 9 ≥ 8, so the `min_samples` branch does not fire); the index is
+raised to `min_remove = 5` and only 5 < `min_samples` samples survive.  Consistent with the
+property's wording (the "otherwise" clause), documented here because `min_samples` reads like a floor. -/
+theorem min_remove_overrides_min_samples :
+    ¬ ((10 : Int) - firstCut 1 < 8) ∧ clampIndex 1 10 8 5 10 none true = Clamp.index 5 ∧
+      (10 : Int) - 5 < 8 := by decide
 
 /-- with `min_remove < 1` and a method that chose 0 the code returns the integer 0, not a threshold -/
 theorem removes_min_remove_fails_without :
     clampIndex 0 20 5 0 10 none true = Clamp.early 0 := by decide
 
-/-- **With constant draws and a cap the next level does not exceed `max_samples`**:
-`(size - n) + nlive ≤ max_samples` for the index `n` used. -/
+/-- **With constant draws and a cap the next level does not exceed `max_samples`**: the index `n`
+used is a valid position (`0 ≤ n < size`, under the guards of `index_in_range`, here `nlive < m`)
+and `(size - n) + nlive ≤ max_samples`. -/
 theorem respects_max_samples (n0 size minSamples minRemove nlive m : Int)
-    (hr : 1 ≤ minRemove) (hm : m ≠ 0) :
+    (hs : 1 ≤ minSamples) (hr : 1 ≤ minRemove) (hrs : minRemove < size) (hm : m ≠ 0)
+    (hc : nlive < m) :
     ∃ n, clampIndex n0 size minSamples minRemove nlive (some m) true = Clamp.index n
-      ∧ (size - n) + nlive ≤ m := by
+      ∧ 0 ≤ n ∧ n < size ∧ (size - n) + nlive ≤ m := by
   have hr' : ¬ minRemove < 1 := by omega
   unfold clampIndex
   by_cases h0 : n0 = 0 <;> simp [h0, hr', hm, truthyOpt, optGet] <;> grind
 
+example : ∃ n, clampIndex 2 20 1 1 10 (some 15) true = Clamp.index n ∧ 0 ≤ n ∧ n < 20 ∧ (20 - n) + 10 ≤ 15 :=
+  respects_max_samples 2 20 1 1 10 15 (by decide) (by decide) (by decide) (by decide) (by decide)
+
 example : clampIndex 2 20 1 1 10 (some 15) true = Clamp.index 15 ∧ ((20 : Int) - 15) + 10 ≤ 15 := by decide
+
+/-- without the range guard `nlive < max_samples` the inequality still holds but for an index that
+is not a position of the live set (`IndexError` in the code): 20 samples, `nlive = 10`, cap 5. -/
+theorem respects_max_samples_fails_without :
+    clampIndex 2 20 1 1 10 (some 5) true = Clamp.index 25 ∧ ((20 : Int) - 25) + 10 ≤ 5 ∧ ¬ ((25 : Int) < 20) := by
+  decide
 
 /-- **Every proposal is trained on at least `min_samples` samples**: the slice
 `training_samples[n_train:]` has at least `min_samples` elements, whatever `np.argmax` returned
@@ -139,12 +177,30 @@ theorem train_floor (size : Nat) (minSamples k : Int) (hk : 0 ≤ k) (hsz : minS
     minSamples ≤ pySliceLen size (nTrain size minSamples k) ∧ 0 ≤ nTrain size minSamples k := by
   unfold pySliceLen pySliceStart nTrain; simp; grind
 
+example : (5 : Int) ≤ pySliceLen 20 (nTrain 20 5 17) ∧ 0 ≤ nTrain 20 5 17 :=
+  train_floor 20 5 17 (by decide) (by decide)
+
 example : nTrain 20 5 17 = 15 ∧ pySliceLen 20 (nTrain 20 5 17) = 5 := by decide
 
 /-- with fewer than `min_samples` training samples `n_train` is negative and the Python slice
-`x[-2:]` silently trains on the last 2 of 3 samples -/
+`x[-2:]` silently trains on the last 2 of 3 samples.  REACHABLE in real runs: `check_configuration`
+compares `min_samples` with `nlive` only, not with `n_initial`, and the first proposal is trained on
+the `n_initial` initial samples (known finding `add_new_proposal:n_initial<min_samples:…`). -/
 theorem train_floor_fails_without :
     nTrain 3 5 0 = -2 ∧ pySliceLen 3 (nTrain 3 5 0) = 2 := by decide
+
+/-- what the code does when the training set is smaller than `min_samples`: it trains on
+`min(size, min_samples - size)` samples — all of them only if `min_samples ≥ 2·size`, and e.g. on a
+single sample for `size = 29`, `min_samples = 30` (`x[-1:]`). -/
+theorem train_len_when_fewer_than_min_samples (size : Nat) (minSamples k : Int) (hk : 0 ≤ k)
+    (hsz : (size : Int) < minSamples) :
+    (pySliceLen size (nTrain size minSamples k) : Int) = min (size : Int) (minSamples - size) := by
+  unfold pySliceLen pySliceStart nTrain; simp; grind
+
+example : (pySliceLen 29 (nTrain 29 30 0) : Int) = min (29 : Int) (30 - 29) :=
+  train_len_when_fewer_than_min_samples 29 30 0 (by decide) (by decide)
+
+example : pySliceLen 29 (nTrain 29 30 0) = 1 ∧ pySliceLen 10 (nTrain 10 30 4) = 10 := by decide
 
 /-- **From index to count.**  On a sorted live set, if the likelihoods at the cut are distinct
 (everything before position `p` is strictly below `logL[p]`), the threshold `logL[p]` removes exactly
@@ -156,6 +212,10 @@ theorem count_eq_index_of_distinct_cut {α : Type} [LinearOrder α] (logL : List
   have h := countBelow_eq_index logL p hp hsorted hcut
   have h2 := countKept_eq logL[p] logL
   omega
+
+example : countBelow ([1, 2, 3, 3, 4] : List Int)[2] [1, 2, 3, 3, 4] = 2 ∧
+    countKept ([1, 2, 3, 3, 4] : List Int)[2] [1, 2, 3, 3, 4] = 5 - 2 :=
+  count_eq_index_of_distinct_cut ([1, 2, 3, 3, 4] : List Int) 2 (by decide) (by decide) (by decide)
 
 example : countBelow (3 : Int) [1, 2, 3, 3, 4] = 2 := by decide
 
@@ -182,6 +242,15 @@ theorem removes_min_remove_count (logL : List Int) (n0 minSamples minRemove nliv
     have := countBelow_eq_index logL n'.toNat (by omega) hsorted hcut
     omega
 
+example : ∃ (p : Nat) (hp : p < ([1, 2, 3, 4, 5, 6] : List Int).length),
+    finish ([1, 2, 3, 4, 5, 6] : List Int)
+      (clampIndex 1 ([1, 2, 3, 4, 5, 6] : List Int).length 2 3 10 none true)
+        = Outcome.threshold p ([1, 2, 3, 4, 5, 6] : List Int)[p] ∧
+    ((∀ i (hi : i < p), ([1, 2, 3, 4, 5, 6] : List Int)[i]'(by omega) < ([1, 2, 3, 4, 5, 6] : List Int)[p]) →
+      (3 : Int) ≤ countBelow ([1, 2, 3, 4, 5, 6] : List Int)[p] [1, 2, 3, 4, 5, 6]) :=
+  removes_min_remove_count [1, 2, 3, 4, 5, 6] 1 2 3 10 none true (by decide) (by decide) (by decide)
+    (by intro _ m hm; cases hm) (by decide) (by decide)
+
 /-- **Exactly `min_samples` samples are kept** (count) when the method's own choice would leave
 fewer and the likelihoods at the cut are distinct. -/
 theorem keeps_min_samples_count (logL : List Int) (n0 minSamples minRemove nlive : Int)
@@ -203,6 +272,15 @@ theorem keeps_min_samples_count (logL : List Int) (n0 minSamples minRemove nlive
     have h := countBelow_eq_index logL _ (by omega) hsorted hcut
     have h2 := countKept_eq logL[((logL.length : Int) - minSamples).toNat] logL
     omega
+
+example : ∃ (p : Nat) (hp : p < ([1, 2, 3, 4, 5, 6] : List Int).length),
+    finish ([1, 2, 3, 4, 5, 6] : List Int)
+      (clampIndex 5 ([1, 2, 3, 4, 5, 6] : List Int).length 2 1 10 none true)
+        = Outcome.threshold p ([1, 2, 3, 4, 5, 6] : List Int)[p] ∧
+    ((∀ i (hi : i < p), ([1, 2, 3, 4, 5, 6] : List Int)[i]'(by omega) < ([1, 2, 3, 4, 5, 6] : List Int)[p]) →
+      (countKept ([1, 2, 3, 4, 5, 6] : List Int)[p] [1, 2, 3, 4, 5, 6] : Int) = 2) :=
+  keeps_min_samples_count [1, 2, 3, 4, 5, 6] 5 2 1 10 none true (by decide) (by decide) (by decide)
+    (by intro _ m hm; cases hm) (by decide) (by decide)
 
 /-- **F5 — tied likelihoods defeat `min_remove`.**  `logL = [1,1,1,2]`, `min_remove = 2`: the
 clamp chooses index 2 (as it must), the threshold is `logL[2] = 1`, and `remove_samples` removes
@@ -247,6 +325,14 @@ theorem quantile_convex (lo hi t0 : K) (ts vals : List K)
   · linarith [h.1]
   · linarith [h.2]
 
+example : (2 : ℚ) ≤ wq [(0 : ℚ), 1/4, 1] [2, 6] ∧ wq [(0 : ℚ), 1/4, 1] [2, 6] ≤ 6 :=
+  quantile_convex 2 6 0 [1/4, 1] [2, 6] (by simp; norm_num) rfl (by simp) rfl
+    (by intro v hv; simp at hv; rcases hv with rfl | rfl <;> norm_num)
+
+example : (∀ w ∈ wqWeights [(0 : ℚ), 1/4, 1], 0 ≤ w) ∧ (wqWeights [(0 : ℚ), 1/4, 1]).sum = 1 ∧
+    wq [(0 : ℚ), 1/4, 1] [2, 6] = (List.zipWith (· * ·) (wqWeights [(0 : ℚ), 1/4, 1]) [2, 6]).sum :=
+  quantile_is_convex_combination 0 [1/4, 1] [2, 6] (by simp; norm_num) rfl (by simp)
+
 example : wq [(0 : Rat), 1/4, 1] [2, 6] = 5 ∧ (2 : Rat) ≤ 5 ∧ (5 : Rat) ≤ 6 := by decide +kernel
 
 /-- **Monotone in the quantile**, under the stated stochastic-monotonicity hypothesis: if the table
@@ -264,6 +350,11 @@ theorem quantile_monotone (t0 s0 : K) (ts ss vals : List K)
   simp at h
   rw [hfirst]
   linarith
+
+example : wq [(0 : ℚ), 1/2, 1] [2, 6] ≤ wq [(0 : ℚ), 1/4, 1] [2, 6] :=
+  quantile_monotone 0 0 [1/2, 1] [1/4, 1] [2, 6]
+    (by refine .cons (by norm_num) (.cons (by norm_num) (.cons (by norm_num) .nil)))
+    rfl (by norm_num) rfl (by simp)
 
 example : wq [(0 : Rat), 1/2, 1] [2, 6] = 4 ∧ wq [(0 : Rat), 1/4, 1] [2, 6] = 5 := by decide +kernel
 
